@@ -297,8 +297,25 @@ impl<'a> G<'a> {
             }
             2 if sub_from < self.nsubs => {
                 let k = sub_from + self.rng.usize(self.nsubs - sub_from);
+                if self.rng.coin() {
+                    v.push(self.simple());
+                }
                 v.push(St::Gosub(self.sub_labels[k]));
-                v.push(self.simple());
+                // the call may be the last thing in the arm (what follows is the other arm / the next line)
+                if self.rng.coin() {
+                    v.push(self.simple());
+                }
+            }
+            5 if !fwd.is_empty() => {
+                // ON..GOTO / ON..GOSUB as the last statement of an arm, selector in and out of range
+                let n = self.rng.range(1, 2) as usize;
+                if sub_from < self.nsubs && self.rng.coin() {
+                    let t = (0..n).map(|_| self.sub_labels[sub_from + self.rng.usize(self.nsubs - sub_from)]).collect();
+                    v.push(St::On(self.sel(), true, t));
+                } else {
+                    let t = (0..n).map(|_| *self.rng.pick(fwd)).collect();
+                    v.push(St::On(self.sel(), false, t));
+                }
             }
             3 if self.o.stop && !in_sub && self.rng.chance(1, 4) => {
                 v.push(self.simple());
@@ -1706,14 +1723,22 @@ pub fn model_session(p: &Prog, cmds: &[Cmd], max_steps: u64) -> Vec<ModelRun> {
             None => End::Normal,
             Some(line) => {
                 let mut pos = Pos { line, path: vec![], idx: 0 };
+                let mut returned = false;
                 loop {
                     if pos.line >= p.lines.len() {
                         break End::Normal;
                     }
                     let sts = m.sts_at(&pos);
                     if pos.idx >= sts.len() {
+                        if returned && m.tron && !pos.path.is_empty() {
+                            // a subroutine returns to the very end of an IF arm: no statement of that line is
+                            // left to run; whether the line counts as entered again is not documented (the
+                            // implementation announces it only when a hidden jump over an ELSE arm remains)
+                            break End::Unspec("trace on return to the end of an IF arm");
+                        }
                         // end of a statement list: both IF arms run to the end of the line
                         pos = m.start_of(pos.line + 1);
+                        returned = false;
                         continue;
                     }
                     steps += 1;
@@ -1722,6 +1747,7 @@ pub fn model_session(p: &Prog, cmds: &[Cmd], max_steps: u64) -> Vec<ModelRun> {
                     }
                     let st = sts[pos.idx].clone();
                     m.max_depth = m.max_depth.max(m.stack.len());
+                    returned = matches!(st, St::Return);
                     match m.exec(&pos, &st) {
                         Ok(Flow::Next) => pos = m.after(&pos),
                         Ok(Flow::Jump(t)) => pos = t,
